@@ -419,7 +419,7 @@ func c06DiffWords(a, b string, skipN bool) string {
 
 // insert n then remove n times at the same point restores the sheet.
 func (g *c06Gen) oracleInsRm(b *c06Book, i int) {
-	r, rng := g.r, g.rng
+	rng := g.rng
 	t := c06Rebuild(b.lines)
 	if t == nil {
 		return
@@ -440,6 +440,12 @@ func (g *c06Gen) oracleInsRm(b *c06Book, i int) {
 		}
 	}
 	n := rng.Range(1, 3)
+	g.insRmRun(b, t, d, i, rows, num, n)
+}
+
+// insRmRun: on the twin t (state d of sheet i): insert n at num, remove n times, compare.
+func (g *c06Gen) insRmRun(b, t *c06Book, d *c06Dump, i int, rows bool, num, n int) {
+	r := g.r
 	before := t.allDumps()
 	sh := c06Sheet(i)
 	kind := "cols"
@@ -473,7 +479,7 @@ func (g *c06Gen) oracleInsRm(b *c06Book, i int) {
 		}
 		if j != i {
 			r.Fail("insrm:"+kind+":other-sheet", fmt.Sprintf("insert %d %s at %d then remove on %s changed sheet %s", n, kind, num, sh, c06Sheet(j)), 0,
-				b.replayText()+fmt.Sprintf("\n# then: insert %d %s at %d on %s, remove %d times", n, kind, num, sh, n))
+				b.replayText()+fmt.Sprintf("\noracle insrm %d %s %d %d", i, kind, num, n))
 			continue
 		}
 		for _, letter := range ch {
@@ -515,7 +521,7 @@ func (g *c06Gen) oracleInsRm(b *c06Book, i int) {
 			}
 			r.Fail("insrm:"+kind+":"+string(letter)+":"+cause, fmt.Sprintf("insert %d %s at %d then remove %d times on %s does not restore the sheet (dump word %c)\n#   before: %s\n#   after:  %s",
 				n, kind, num, n, sh, letter, c06Trunc(before[j], 600), c06Trunc(after[j], 600)), 0,
-				b.replayText()+fmt.Sprintf("\n# then: insert %d %s at %d on %s, remove %d times", n, kind, num, sh, n))
+				b.replayText()+fmt.Sprintf("\noracle insrm %d %s %d %d", i, kind, num, n))
 		}
 	}
 }
@@ -919,6 +925,25 @@ func (g *c06Gen) witnesses() {
 	run(1, tb, "rmrow 0 4 t")
 	run(1, tb, "rmcol 0 "+hx("B")+" t")
 	run(1, tb, "insrows 0 3 2 t", "inscols 0 "+hx("C")+" 1 t")
+	// open findings: deterministic witnesses
+	run(1, [][]string{{"dv", "0", hx("XFD1"), "whole"}, {"setint", "0", "A1", "1"}}, "inscols 0 "+hx("A")+" 1 f")
+	run(1, [][]string{{"link", "0", "XFD1", "ext"}, {"setint", "0", "A2", "1"}}, "inscols 0 "+hx("A")+" 1 f")
+	run(1, [][]string{{"setint", "0", "A3", "1"}, {"table", "0", hx("A3:B5"), "TL"}}, "insrows 0 1 1048572 t")
+	insrm := func(setup [][]string, rows bool, num, n int) {
+		b := c06New(nil, 1)
+		for _, s := range setup {
+			b.api(nil, s...)
+		}
+		b.f.Close()
+		t := c06Rebuild(b.lines)
+		defer t.f.Close()
+		g.insRmRun(b, t, c06Parse(t.dump(0)), 0, rows, num, n)
+	}
+	insrm([][]string{{"dv", "0", hx("A1:A1048576"), "whole"}}, true, 5, 1)
+	insrm([][]string{{"cf", "0", hx("A1:A1048576"), "3"}}, true, 5, 1)
+	insrm([][]string{{"dv", "0", hx("A1:XFD1"), "whole"}}, false, 3, 1)
+	insrm([][]string{{"cf", "0", hx("A1:XFD1"), "3"}}, false, 3, 1)
+	insrm([][]string{{"colw", "0", "XFC", "XFD", "20"}}, false, 3, 1)
 	// hyperlink at the limit
 	run(1, [][]string{{"link", "0", "A1048576", "ext"}, {"setint", "0", "A2", "1"}}, "insrows 0 1 1 f")
 }
@@ -958,7 +983,6 @@ func runC06(r *Run, rng *Rng, replay string) {
 func c06Replay(r *Run, path string) {
 	var b *c06Book
 	g := &c06Gen{r: r, rng: NewRng(1)}
-	_ = g
 	for _, line := range readLines(path) {
 		line = strings.TrimSpace(line)
 		if line == "" || strings.HasPrefix(line, "#") {
@@ -982,6 +1006,18 @@ func c06Replay(r *Run, path string) {
 				if i >= 0 && i < b.k {
 					b.emit(r, fmt.Sprintf("sheet %d %s", i, b.dump(i)), "ok")
 				}
+			}
+		case "oracle":
+			// oracle insrm <i> <rows|cols> <num> <n>: the insert/remove identity oracle on a twin workbook
+			if b != nil && len(w) == 6 && w[1] == "insrm" {
+				i, _ := strconv.Atoi(w[2])
+				num, _ := strconv.Atoi(w[4])
+				n, _ := strconv.Atoi(w[5])
+				if t := c06Rebuild(b.lines); t != nil && i >= 0 && i < b.k {
+					g.insRmRun(b, t, c06Parse(t.dump(i)), i, w[3] == "rows", num, n)
+					t.f.Close()
+				}
+				b.emit(r, line, "ok")
 			}
 		case "others":
 			// emitted by structural
